@@ -112,6 +112,9 @@ def r2b_unreachable_ranges(rule, root=None):
                     scr = scr["e"]
                 ok = False
                 why = "scrutinee is not `(..) as <int>`"
+                s0 = A.strip(scr)
+                if s0.get("k") == "MethodCall" and s0["method"] in ("rem_euclid", "rem") and any(c_.get("k") == "Cast" for c_ in A.walk(s0["recv"])):
+                    why = "the value is narrowed with `as` *before* the range reduction: a float-to-integer cast saturates, so every angle beyond the integer type's range lands in one class (reduce in f32 first: `.floor().rem_euclid(N) as uN`)"
                 if scr.get("k") == "Cast":
                     inner = A.strip(scr["e"])
                     if inner.get("k") == "MethodCall" and inner["method"] == "rem_euclid" and len(inner["args"]) == 1:
